@@ -518,8 +518,8 @@ Proof.
 Qed.
 
 (* the witness: one register key, two operation sets; H and D are irrelevant here (no range set) *)
-Definition f16_a : node := mkNode 0 [(1, CReg 1 [1])] [(1, 1)] [1] [] None None.
-Definition f16_b : node := mkNode 1 [(1, CReg 1 [2])] [(0, 1)] [0] [] None None.
+Definition f16_a : node := mkNode 0 [(1, CReg 1 [1])] [(1, 1)] [] None None.
+Definition f16_b : node := mkNode 1 [(1, CReg 1 [2])] [(0, 1)] [] None None.
 
 Lemma f16_round H D : round H D (f16_a, f16_b) = (f16_a, f16_b).
 Proof. reflexivity. Qed.
@@ -550,6 +550,11 @@ Proof. unfold on_replicate. replace (accepts_holder f16_b 0) with true by reflex
 Lemma f16_onrep_a D t : on_replicate D f16_a 1 [(1, t)] = (f16_a, []).
 Proof. unfold on_replicate. replace (accepts_holder f16_a 1) with true by reflexivity. reflexivity. Qed.
 
+Lemma f16_rep_a H : replicate_msgs H f16_a = [Replicate 0 1 0 (advert H f16_a)].
+Proof. reflexivity. Qed.
+Lemma f16_rep_b H : replicate_msgs H f16_b = [Replicate 1 0 1 (advert H f16_b)].
+Proof. reflexivity. Qed.
+
 (* the same witness at the level of messages: both lists are sent and delivered, nothing is fetched *)
 Example f16_messages H D :
   let s0 := mkSys [f16_a; f16_b] [] in
@@ -557,7 +562,8 @@ Example f16_messages H D :
   let mb := Replicate 1 0 1 (advert H f16_b) in
   run H D s0 [OReplicate 0; OReplicate 1; ODeliver ma; ODeliver mb] = s0.
 Proof.
-  intros s0 ma mb. unfold run, s0, ma, mb. cbn -[on_replicate].
+  intros s0 ma mb. unfold run, s0, ma, mb. cbn -[on_replicate replicate_msgs].
+  rewrite f16_rep_a, f16_rep_b. cbn -[on_replicate].
   repeat (unfold kts_eqb, kts_sub, kt_eqb, rtype_eqb; rewrite ?N.eqb_refl; cbn -[on_replicate]).
   rewrite f16_onrep_b. cbn -[on_replicate].
   repeat (unfold kts_eqb, kts_sub, kt_eqb, rtype_eqb; rewrite ?N.eqb_refl; cbn -[on_replicate]).
@@ -565,8 +571,8 @@ Proof.
 Qed.
 
 (* non-vacuity of round_converges: two nodes with disjoint stores of every kind end up equal *)
-Definition ex_a : node := mkNode 0 [(1, CChunk 7); (2, CReg 1 [1; 2])] [(1, 1)] [1] [] None None.
-Definition ex_b : node := mkNode 1 [(3, CPad 5 2 9 true); (4, CTxs [4])] [(0, 1)] [0] [] None None.
+Definition ex_a : node := mkNode 0 [(1, CChunk 7); (2, CReg 1 [1; 2])] [(1, 1)] [] None None.
+Definition ex_b : node := mkNode 1 [(3, CPad 5 2 9 true); (4, CTxs [4])] [(0, 1)] [] None None.
 
 Example round_converges_example :
   ~ KnownOtherVersion ex_a ex_b /\
@@ -737,7 +743,7 @@ Qed.
    holder acted on, the K_VALUE-th nearest is the first one ignored *)
 Definition kx_table : list (peer * N) :=
   map (fun i => (100 + N.of_nat i, N.of_nat i)) (rev (seq 1 22)).
-Definition kx_node : node := mkNode 0 [] kx_table [] [] None None.
+Definition kx_node : node := mkNode 0 [] kx_table [] None None.
 
 Example k_closest_boundary_example :
   length (table kx_node) = 22%nat /\
@@ -920,7 +926,7 @@ Qed.
    stored; a list with two new keys at distances 7 and 12 and one at 3: the keys at 3 and 7 are fetched, the
    one at 12 is not.  Without the second sync (lag) only the key at 3 is. *)
 Definition rg_D (p : peer) (k : key) : N := match k with 1 => 3 | 2 => 7 | 3 => 12 | _ => 100 end.
-Definition rg_node (sr fr : option N) : node := mkNode 1 [] [(0, 1)] [0] [] sr fr.
+Definition rg_node (sr fr : option N) : node := mkNode 1 [] [(0, 1)] [] sr fr.
 Definition rg_keys : list (key * rtype) := [(1, TChunk); (2, TChunk); (3, TChunk)].
 
 Example regrow_example :
@@ -937,3 +943,59 @@ Example regrow_example :
   (* no range at all: everything is fetched *)
   snd (on_replicate rg_D (rg_node None None) 0 rg_keys) = [Fetch 1 0 1; Fetch 1 0 2; Fetch 1 0 3].
 Proof. repeat split; reflexivity. Qed.
+
+(* ---------------------------------------------------------------- replication targets *)
+Lemma repl_close_group_size_pinned : CGS = 5.
+Proof. reflexivity. Qed.
+
+Definition within (n : node) (r : N) : nat := length (filter (fun y : peer * N => snd y <=? r) (table n)).
+
+(* with a responsible range that holds at least CLOSE_GROUP_SIZE table peers, the targets are exactly the
+   table peers at distance <= range -- the peer exactly ON the range included *)
+Lemma cands_in_range n r p :
+  store_range n = Some r -> (N.to_nat CGS <= within n r)%nat ->
+  (In p (cands n) <-> exists d, In (p, d) (table n) /\ d <= r).
+Proof.
+  intros Hr Hc. unfold cands, within in *. rewrite Hr.
+  rewrite (filter_length_perm _ _ _ (Permutation_sym (sort_perm (table n)))) in Hc.
+  apply Nat.leb_le in Hc. rewrite Hc. rewrite in_map_iff. split.
+  - intros [[p' d] [E Hin]]. cbn in E. subst p'. apply filter_In in Hin as [Hin Hd].
+    exists d. split; [apply (Permutation_in _ (sort_perm (table n))); exact Hin|].
+    cbn in Hd. apply N.leb_le in Hd. exact Hd.
+  - intros [d [Hin Hd]]. exists (p, d). split; [reflexivity|]. apply filter_In. split.
+    + apply (Permutation_in _ (Permutation_sym (sort_perm (table n)))). exact Hin.
+    + cbn. apply N.leb_le. exact Hd.
+Qed.
+
+(* otherwise (no range, or fewer than CLOSE_GROUP_SIZE peers within it): the CLOSE_GROUP_SIZE nearest *)
+Lemma cands_fallback n :
+  (store_range n = None \/ exists r, store_range n = Some r /\ (within n r < N.to_nat CGS)%nat) ->
+  cands n = map fst (firstn (N.to_nat CGS) (sort_by_dist (table n))).
+Proof.
+  intros [Hr|[r [Hr Hc]]]; unfold cands; rewrite Hr; [reflexivity|].
+  unfold within in Hc. rewrite (filter_length_perm _ _ _ (Permutation_sym (sort_perm (table n)))) in Hc.
+  apply Nat.leb_gt in Hc. rewrite Hc. reflexivity.
+Qed.
+
+(* the targets depend on the table and the store's range only *)
+Lemma cands_ext n n' : table n' = table n -> store_range n' = store_range n -> cands n' = cands n.
+Proof. intros Ht Hr. unfold cands. rewrite Ht, Hr. reflexivity. Qed.
+
+(* boundary example: eight peers at distances 10, 20, .. 80; range = exactly the distance of the 6th nearest:
+   six targets, the 6th among them; one below: the fall-back to the five nearest; one above: still six *)
+Definition bd_node (r : option N) : node :=
+  mkNode 0 [(1, CChunk 1)] (map (fun i => (100 + N.of_nat i, 10 * N.of_nat i)) (rev (seq 1 8))) [] r None.
+
+Example cands_boundary_example :
+  cands (bd_node (Some 60)) = [101; 102; 103; 104; 105; 106] /\
+  cands (bd_node (Some 59)) = [101; 102; 103; 104; 105] /\
+  cands (bd_node (Some 61)) = [101; 102; 103; 104; 105; 106] /\
+  cands (bd_node (Some 49)) = [101; 102; 103; 104; 105] /\
+  cands (bd_node (Some 9)) = [101; 102; 103; 104; 105] /\
+  cands (bd_node None) = [101; 102; 103; 104; 105] /\
+  (forall H, In (Replicate 0 106 0 [(1, TChunk)]) (replicate_msgs H (bd_node (Some 60)))).
+Proof.
+  repeat split; try reflexivity. intros H.
+  replace (replicate_msgs H (bd_node (Some 60))) with (map (fun t => Replicate 0 t 0 [(1, TChunk)]) [101; 102; 103; 104; 105; 106]) by reflexivity.
+  cbn. tauto.
+Qed.
